@@ -61,6 +61,9 @@ class Adapter:
             t = net.tensors[k]
             ts.append(qtn.Tensor(t["data"], t["inds"], tags=[t["tag"], f"S{t['site']}"]))
         self.tn = qtn.TensorNetwork(ts)
+        if self.opts.get("exponent"):
+            # the same network with its scale moved into ``tn.exponent``
+            self.tn.equalize_norms_(1.0)
         self.site_tags = [f"S{s}" for s in range(net.nsites)]
         self.bp = self._make()
         btn = self.bp.tn
@@ -369,6 +372,7 @@ class BPWorld(World):
                 "init_seed": r.choice([None, r.randrange(2**31)]),
                 "order_seed": r.choice([None, r.randrange(2**31)]),
                 "smudge": r.choice([0.0, 1e-13]),
+            "exponent": r.random() < 0.2,
                 "lc": True,
                 "pool": r.choice([0, 0, 2, 3, 5]) if fl == "HV1BP" else 0,
             }
